@@ -549,6 +549,9 @@ func c04JSONCopy(v interface{}) interface{} {
 	case int64:
 		return float64(x)
 	case []string:
+		if x == nil {
+			return nil // a nil slice is encoded as null
+		}
 		out := make([]interface{}, len(x))
 		for i, e := range x {
 			out[i] = e
@@ -584,14 +587,25 @@ func VerifC04_SaveLoad() {
 		{"a/str", OptTypeString, ReleaseLevelBeta, &valueCache{stringVal: "user"}},
 		{"b/list", OptTypeStringArray, ReleaseLevelExperimental, &valueCache{stringArrayVal: []string{"x", "y"}}},
 		{"flag", OptTypeBool, ReleaseLevelStable, &valueCache{boolVal: true}},
+		// a large integer with a validation pattern (JSON decodes it as a float)
+		{"a/big", OptTypeInt, ReleaseLevelStable, &valueCache{intVal: 30000000}},
+		// an empty list that was set as a nil slice
+		{"b/none", OptTypeStringArray, ReleaseLevelStable, nil},
 	}
 	var opts []*Option
 	set := make([]bool, len(specs))
 	for i, sp := range specs {
 		o := addOption(sp.key, sp.t, sp.level, &valueCache{stringVal: "fallback"})
 		set[i] = rt.Bool("set" + string(rune('0'+i)))
-		if set[i] {
+		if set[i] && sp.val != nil {
 			o.activeValue = sp.val
+		}
+		if set[i] && sp.val == nil {
+			// set through the API, as a user would
+			rt.Assert(setConfigOption(sp.key, []string(nil), false) == nil, "saveload/set-nil-list-ok")
+		}
+		if sp.key == "a/big" {
+			o.compiledRegex = regexp.MustCompile(`^[0-9]+$`)
 		}
 		opts = append(opts, o)
 	}
@@ -614,14 +628,18 @@ func VerifC04_SaveLoad() {
 		}
 		switch o.OptType {
 		case OptTypeInt:
-			rt.Assert(o.activeValue.intVal == 42, "saveload/int-value")
+			rt.Assert(o.activeValue.intVal == specs[i].val.intVal, "saveload/int-value")
 		case OptTypeString:
 			rt.Assert(o.activeValue.stringVal == "user", "saveload/string-value")
 		case OptTypeBool:
 			rt.Assert(o.activeValue.boolVal, "saveload/bool-value")
 		case OptTypeStringArray:
 			v := o.activeValue.stringArrayVal
-			rt.Assert(len(v) == 2 && v[0] == "x" && v[1] == "y", "saveload/list-value")
+			if specs[i].val == nil {
+				rt.Assert(len(v) == 0, "saveload/empty-list-value")
+			} else {
+				rt.Assert(len(v) == 2 && v[0] == "x" && v[1] == "y", "saveload/list-value")
+			}
 		}
 	}
 	rt.Reach("saveload-end")
